@@ -962,6 +962,9 @@ func BinaryExpr(query *Query, current Map, expr *sqlparser.BinaryExpr, opts ...E
 		}
 	case sqlparser.DivOp:
 		{
+			if *rightValue == 0 {
+				return nil, EXPECTATION_FAILED.Extend("division by zero")
+			}
 			rs := *leftValue / *rightValue
 			return &rs, nil
 		}
@@ -972,6 +975,9 @@ func BinaryExpr(query *Query, current Map, expr *sqlparser.BinaryExpr, opts ...E
 		}
 	case sqlparser.ModOp:
 		{
+			if *rightValue == 0 {
+				return nil, EXPECTATION_FAILED.Extend("division by zero")
+			}
 			rs := math.Mod(*leftValue, *rightValue)
 			return &rs, nil
 		}
